@@ -64,11 +64,88 @@ def violated_invariants(out):
     return c
 
 
+class RealCodeCrash(Exception):
+    """the harness process died of a Go runtime fatal error raised inside the REAL render code (helm.sh/helm/...):
+    behaviour of the code under test, not a failure of the machinery"""
+    def __init__(self, what, out, args):
+        super().__init__(what)
+        self.what, self.out, self.args = what, out, args
+
+
+def crash_in_real_code(out):
+    """a Go runtime fatal error (concurrent map access) or a race report whose first frame outside the runtime /
+    standard library belongs to helm and not to the harness; returns a one-line description or None"""
+    m = re.search(r"fatal error: (concurrent map[^\n]*)|WARNING: DATA RACE", out)
+    if not m:
+        return None
+    frames = []
+    for line in out[m.start():].splitlines()[1:80]:
+        fm = re.match(r"^([A-Za-z0-9_./\-]+(?:/v\d+)?[A-Za-z0-9_./\-]*\.[^\s(]+)\(", line)
+        if fm:
+            frames.append(fm.group(1))
+        if line.startswith("goroutine ") and frames:
+            break
+    for f in frames:
+        if f.startswith("verif/harness/"):
+            return None
+        if f.startswith("helm.sh/helm/"):
+            return "%s in %s" % (m.group(0).strip(), f)
+    return None
+
+
 def harness(hv, args, timeout):
     rc, out, dt = vlib.sh([hv] + args, cwd=vlib.ROOT, timeout=timeout, check=False)
     if rc != 0:
+        what = crash_in_real_code(out)
+        if what:
+            raise RealCodeCrash(what, out, args)
         raise Inconclusive("harness %s failed (%d):\n%s" % (" ".join(args[:1]), rc, out[-3000:]))
     return dt
+
+
+def spec_tables():
+    """InstallOrder / UninstallOrder as written in spec/RenderBase.tla"""
+    txt = open(os.path.join(vlib.SPEC, "RenderBase.tla")).read()
+    out = {}
+    for name in ("InstallOrder", "UninstallOrder"):
+        m = re.search(r"^%s == <<(.*?)>>" % name, txt, re.S | re.M)
+        out[name] = re.findall(r'"([^"]*)"', m.group(1))
+    return out
+
+
+def order_key(tab, k):
+    return (0, tab.index(k), "") if k in tab else (1, 0, k)
+
+
+def order_probe(hv, d, meta, seed=1):
+    """when the kind tables of the code are not those of the specification: look for kinds whose relative order the
+    two tables predict differently, run the REAL sort on them and let RenderOrderObs judge the output against the
+    specification's fixed tables. returns [(check name, case)] of observed violations, and the number of cases tried"""
+    spec = spec_tables()
+    cases = []
+    for table, sname, cname in (("install", "InstallOrder", "installOrder"), ("uninstall", "UninstallOrder", "uninstallOrder")):
+        s, c = spec[sname], meta[cname]
+        if s == c:
+            continue
+        uni = sorted(set(s) | set(c) | {"Aaaa", "Mmmm", "Zzzz"})
+        wit = []
+        for i, a in enumerate(uni):
+            for b in uni[i + 1:]:
+                if (order_key(s, a) < order_key(s, b)) != (order_key(c, a) < order_key(c, b)):
+                    wit.append((a, b))
+        # prefer witnesses that involve a kind on which the tables disagree about membership
+        wit.sort(key=lambda p: (not ((p[0] in s) != (p[0] in c) or (p[1] in s) != (p[1] in c)), p))
+        for a, b in wit[:12]:
+            cases.append({"table": table, "kinds": [a, b], "alpha": [], "out": []})
+            cases.append({"table": table, "kinds": [b, a, b], "alpha": [], "out": []})
+    if not cases:
+        return [], 0
+    cf, of = os.path.join(d, "order_cases.ndjson"), os.path.join(d, "order_obs.ndjson")
+    write_ndjson(cf, cases)
+    harness(hv, ["sortprobe", "-in", cf, "-out", of], 300)
+    viol, _, _ = monitor(d, "RenderOrderObs.tla", "ordermon", of, "", par=1)
+    obs = read_ndjson(of)
+    return [(name, obs[idx]) for idx, name in viol], len(cases)
 
 
 def monitor(d, module, cfgname, obsfile, extra_consts, par=6, timeout=900):
